@@ -10,7 +10,8 @@ use crate::vals;
 
 pub const RULE: &str = "case = one logical input (routine, DIMS, mask, value, a, b) executed twice: run 1 with \
 guard-flush placement, poison byte 0xA5 around the slices and result pre-filled with 0xC3..; then an unrelated \
-call of the same routine on other data in the same arenas (interleaving); run 2 with different byte alignments \
+call of the same routine on other data in the same arenas (interleaving; for const-dimension entry points the call goes \
+to the same entry point instantiated at another DIMS); run 2 with different byte alignments \
 of every slice (derived from the case hash), poison byte 0x3C and result pre-filled with 0x5A... The two outcomes \
 (value / whole result vector / panic) must be bit-identical (floats included; same backend), which also proves \
 every result element is overwritten; inputs must be unchanged bit for bit; canaries intact. Every routine (all \
@@ -56,7 +57,7 @@ fn out_bits_equal<T: Elem>(x: &Out<T>, y: &Out<T>) -> Option<String> {
     }
 }
 
-fn check<T: Elem>(c: &VecCall<T>, ar: &mut Arenas) -> Verdict {
+fn check<T: Elem>(c: &VecCall<T>, ar: &mut Arenas, sib: &Option<crate::elem::Routine<T>>) -> Verdict {
     let h = c.hash();
     let align = std::mem::align_of::<T>() as u64;
     let nk = 64 / align;
@@ -69,10 +70,15 @@ fn check<T: Elem>(c: &VecCall<T>, ar: &mut Arenas) -> Verdict {
     let e1 = c1.exec(ar);
     // interleaved unrelated call (same routine, other data, other length)
     let mut noise = c.clone();
-    let nl = if c.r.dims.is_some() {
-        c.a.len()
-    } else {
-        (c.a.len() * 2 + 3) % 97
+    // const-dimension forms: the interleaved call goes to the *same entry point at another DIMS* when the harness has
+    // one (a selection cached per function instead of per instantiation, or any other state shared between the
+    // instantiations, then shows in run 2); otherwise the same DIMS
+    if let (Some(_), Some(s)) = (c.r.dims, sib) {
+        noise.r = *s;
+    }
+    let nl = match noise.r.dims {
+        Some(d) => d,
+        None => (c.a.len() * 2 + 3) % 97,
     };
     noise.a = (0..nl)
         .map(|i| T::from_bits(h.rotate_left(i as u32 % 64) | 1))
@@ -171,6 +177,15 @@ fn one_target<T: Elem>(ctx: &mut Ctx, t: Target<T>) {
     let int_div = !T::FLOAT && t.r.op.is_div();
     let small = !T::FLOAT && t.r.op == crate::elem::Op::Cosine;
     let pack = pack_len(&t);
+    // another instantiation of the same const-dimension entry point (same name, other DIMS), if any
+    let sib: Option<crate::elem::Routine<T>> = if t.r.dims.is_some() {
+        T::all_routines()
+            .into_iter()
+            .filter(|r| r.name == t.r.name && r.safe == t.r.safe && r.dims.is_some() && r.dims != t.r.dims)
+            .max_by_key(|r| r.dims.unwrap_or(0))
+    } else {
+        None
+    };
     let mut run = Run::new(ctx, t, pack.max(128));
     let reps = tier.pick(2, 40);
     for &len in &lens {
@@ -205,7 +220,7 @@ fn one_target<T: Elem>(ctx: &mut Ctx, t: Target<T>) {
             c.weight = 3;
             run.tally.note_len(len);
             let ar = &mut run.ar;
-            run.ctx.run_case(&c, len > 0, &mut |c| check(c, ar));
+            run.ctx.run_case(&c, len > 0, &mut |c| check(c, ar, &sib));
             if run.ctx.p.samples.is_empty() && len > 0 && len <= 8 {
                 sample(run.ctx, &c);
             }
